@@ -65,6 +65,8 @@ pub fn yield_with_io<T: EventSource>(resource: &T, is_coroutine: bool) {
         crate::io::thread::PROXY_CO_SENDER.with(|tx| {
             tx.send(es).unwrap();
         });
+        #[cfg(may_verif)]
+        crate::verif::thread_park(None);
         std::thread::park();
     }
 }
@@ -85,6 +87,10 @@ pub fn get_co_para() -> Option<EventResult> {
 #[inline]
 pub fn yield_now() {
     if unlikely(!is_coroutine()) {
+        #[cfg(may_verif)]
+        if crate::verif::yield_now() {
+            return;
+        }
         return std::thread::yield_now();
     }
     let y = Yield {};
